@@ -9,6 +9,7 @@
 // @module file=kuznyechik/src/utils.rs
 use super::*;
 use bcref::kuznyechik as kz;
+use crate::__vp_lemmas::ruf;
 
 pub fn view(m: &[u8; 16], i: usize) -> [u8; 16] {
     let mut v = [0u8; 16];
@@ -38,6 +39,20 @@ fn c_get_idx() {
     assert!(get_m(m, b, i) == m[(b + 16 - i) % 16] as usize);
 }
 
+/// l(a15, ..., a0) computed with the crate's multiplication tables, term by term as l_step does
+pub fn ell_tables(v: &[u8; 16]) -> u8 {
+    v[15] ^ GFT_148[v[14] as usize] ^ GFT_32[v[13] as usize] ^ GFT_133[v[12] as usize] ^ GFT_16[v[11] as usize]
+        ^ GFT_194[v[10] as usize] ^ GFT_192[v[9] as usize] ^ v[8] ^ GFT_251[v[7] as usize] ^ v[6]
+        ^ GFT_192[v[5] as usize] ^ GFT_194[v[4] as usize] ^ GFT_16[v[3] as usize] ^ GFT_133[v[2] as usize]
+        ^ GFT_32[v[1] as usize] ^ GFT_148[v[0] as usize]
+}
+pub fn spec_l_step_tables(msg: [u8; 16], i: usize) -> [u8; 16] {
+    let mut out = msg;
+    out[(15 + 16 - i) & 15] = ell_tables(&view(&msg, i));
+    out
+}
+
+// l_step reads the window it should and rewrites the byte it should (data movement; same table look-ups on both sides)
 // @ob name=c_l_step props=C07,C20 fn=kuznyechik::utils::l_step timeout=600
 #[kani::proof]
 #[kani::unwind(17)]
@@ -45,13 +60,38 @@ fn c_l_step() {
     let msg: [u8; 16] = kani::any();
     let mut i = 0;
     while i < 16 {
-        assert!(kz::eq(&l_step(msg, i), &spec_l_step(msg, i)));
+        assert!(kz::eq(&l_step(msg, i), &spec_l_step_tables(msg, i)));
         i += 1;
     }
 }
 
+// the sixteen table look-ups and XORs are the standard's l (term by term, then the sum)
+// @ob name=c_ell_tables props=C07,C20 fn=kuznyechik::utils::l_step uses=c_gft_tables timeout=600
+#[kani::proof]
+#[kani::unwind(17)]
+fn c_ell_tables() {
+    let v: [u8; 16] = kani::any();
+    assert!(GFT_148[v[0] as usize] == kz::gf_mul(kz::LC[0], v[0]));
+    assert!(GFT_32[v[1] as usize] == kz::gf_mul(kz::LC[1], v[1]));
+    assert!(GFT_133[v[2] as usize] == kz::gf_mul(kz::LC[2], v[2]));
+    assert!(GFT_16[v[3] as usize] == kz::gf_mul(kz::LC[3], v[3]));
+    assert!(GFT_194[v[4] as usize] == kz::gf_mul(kz::LC[4], v[4]));
+    assert!(GFT_192[v[5] as usize] == kz::gf_mul(kz::LC[5], v[5]));
+    assert!(v[6] == kz::gf_mul(kz::LC[6], v[6]));
+    assert!(GFT_251[v[7] as usize] == kz::gf_mul(kz::LC[7], v[7]));
+    assert!(v[8] == kz::gf_mul(kz::LC[8], v[8]));
+    assert!(GFT_192[v[9] as usize] == kz::gf_mul(kz::LC[9], v[9]));
+    assert!(GFT_194[v[10] as usize] == kz::gf_mul(kz::LC[10], v[10]));
+    assert!(GFT_16[v[11] as usize] == kz::gf_mul(kz::LC[11], v[11]));
+    assert!(GFT_133[v[12] as usize] == kz::gf_mul(kz::LC[12], v[12]));
+    assert!(GFT_32[v[13] as usize] == kz::gf_mul(kz::LC[13], v[13]));
+    assert!(GFT_148[v[14] as usize] == kz::gf_mul(kz::LC[14], v[14]));
+    assert!(v[15] == kz::gf_mul(kz::LC[15], v[15]));
+    assert!(ell_tables(&v) == kz::ell(&v));
+}
+
 // one step on the window is R on the logical block (data movement only)
-// @ob name=l_l_step_is_r props=C07 kind=lemma fn=kuznyechik::utils::l_step uses=c_l_step timeout=300
+// @ob name=l_l_step_is_r props=C07 kind=lemma fn=kuznyechik::utils::l_step uses=c_l_step,c_ell_tables timeout=300
 #[kani::proof]
 #[kani::unwind(17)]
 fn l_l_step_is_r() {
@@ -65,7 +105,7 @@ fn l_l_step_is_r() {
 }
 
 // steps 15, 14, ..., 0 undo it: the same step on the window is R^-1 on the logical block
-// @ob name=l_l_step_is_rinv props=C07 kind=lemma fn=kuznyechik::utils::l_step uses=c_l_step timeout=300
+// @ob name=l_l_step_is_rinv props=C07 kind=lemma fn=kuznyechik::utils::l_step uses=c_l_step,c_ell_tables timeout=300
 #[kani::proof]
 #[kani::unwind(17)]
 fn l_l_step_is_rinv() {
@@ -95,33 +135,66 @@ pub fn l16_inv(mut m: [u8; 16]) -> [u8; 16] {
     m
 }
 
-// @ob name=c_l16 props=C07,C20 fn=kuznyechik::utils::l_step uses=c_l_step timeout=600
+// @ob name=c_l16 props=C07,C20 fn=kuznyechik::utils::l_step uses=c_l_step,c_ell_tables timeout=600
 #[kani::proof]
 #[kani::stub(l_step, spec_l_step)]
-#[kani::unwind(17)]
+#[kani::stub(bcref::kuznyechik::ell, ruf::ell)]
+#[kani::unwind(151)]
 fn c_l16() {
     let msg: [u8; 16] = kani::any();
     assert!(kz::eq(&l16(msg), &kz::l(&msg)));
 }
 
-// @ob name=c_l16_inv props=C07,C20 fn=kuznyechik::utils::l_step uses=c_l_step timeout=600
+// @ob name=c_l16_inv props=C07,C20 fn=kuznyechik::utils::l_step uses=c_l_step,c_ell_tables timeout=600
 #[kani::proof]
 #[kani::stub(l_step, spec_l_step)]
-#[kani::unwind(17)]
+#[kani::stub(bcref::kuznyechik::ell, ruf::ell)]
+#[kani::unwind(151)]
 fn c_l16_inv() {
     let msg: [u8; 16] = kani::any();
     assert!(kz::eq(&l16_inv(msg), &kz::l_inv(&msg)));
 }
 
-// KEYGEN[n] = C_{n+1} = L(Vec_128(n+1)), all 32 of them (concrete evaluation)
+/// C_1..C_32 of the standard, const-evaluated by rustc from the reference functions
+pub static CREF: [[u8; 16]; 32] = {
+    let mut t = [[0u8; 16]; 32];
+    let mut n = 0;
+    while n < 32 {
+        t[n] = kz::c(n + 1);
+        n += 1;
+    }
+    t
+};
+
+// KEYGEN[n] = C_{n+1} = L(Vec_128(n+1)), all 32 of them
 // @ob name=c_keygen props=C07,C20 kind=exhaustive fn=kuznyechik::utils::KEYGEN timeout=600
 #[kani::proof]
 #[kani::unwind(33)]
 fn c_keygen() {
     let mut n = 0;
     while n < 32 {
-        assert!(kz::eq(&KEYGEN[n].0, &kz::c(n + 1)));
+        assert!(kz::eq(&KEYGEN[n].0, &CREF[n]));
         n += 1;
     }
     assert!(core::mem::align_of::<Align16<[u8; 16]>>() == 16 && core::mem::size_of::<Align16<[u8; 16]>>() == 16);
 }
+
+// ... and the const-evaluated constants are what the reference computes when Kani executes it (rustc's const evaluation
+// against CBMC's), all 32 in two halves
+macro_rules! cref { ($name:ident, $lo:expr, $hi:expr) => {
+    #[kani::proof]
+    #[kani::unwind(33)]
+    fn $name() {
+        let mut n = $lo;
+        while n < $hi {
+            assert!(kz::eq(&CREF[n], &kz::c(n + 1)));
+            n += 1;
+        }
+    }
+}; }
+// @ob name=c_cref_lo props=C07 kind=exhaustive fn=bcref::kuznyechik::c timeout=600
+cref!(c_cref_lo, 0, 16);
+// @ob name=c_cref_hi props=C07 kind=exhaustive fn=bcref::kuznyechik::c timeout=600
+cref!(c_cref_hi, 16, 32);
+/// C_i read from the checked table (1 <= i <= 32), stand-in for bcref::kuznyechik::c in composition obligations
+pub fn cref_lookup(i: usize) -> [u8; 16] { CREF[i - 1] }
